@@ -3,8 +3,8 @@ package checks
 import (
 	"fmt"
 	"go/token"
-	"os"
 	"go/types"
+	"os"
 	"sort"
 	"strings"
 
@@ -687,11 +687,11 @@ type cmtWrite struct {
 	rootIsAlloc bool
 	kind        string // kind of the root alloc
 	rest        string // path below the root
-	owner string
-	slot  string
-	pos   token.Pos
-	fn    *ssa.Function
-	how   string
+	owner       string
+	slot        string
+	pos         token.Pos
+	fn          *ssa.Function
+	how         string
 }
 
 func (a *cmtAnalysis) writers() []cmtWrite {
@@ -1004,7 +1004,7 @@ func runC15(c *core.Ctx) {
 
 	// Nodes that share their *Meta with a child built from the same token (one reason each): the owner's slots are the child's.
 	metaAliases := map[string]struct{ child, why string }{
-		"SubroutineParameter": {"SubroutineParameter.Name", "ParseSubroutineDeclaration builds the parameter with Meta: p.curToken right after ParseIdent() built Name from the same token: one *Meta is shared, Name is printed with its comments"},
+		"SubroutineParameter":                {"SubroutineParameter.Name", "ParseSubroutineDeclaration builds the parameter with Meta: p.curToken right after ParseIdent() built Name from the same token: one *Meta is shared, Name is printed with its comments"},
 		"SubroutineDeclaration.Parameters[]": {"SubroutineDeclaration.Parameters[].Name", "same shared *Meta, addressed through the declaration"},
 	}
 	ws := a.writers()
